@@ -302,6 +302,7 @@ func init() {
 						default:
 							o3.OCSP.NextUpdate = o3.OCSP.NextUpdate.Add(d)
 						}
+						o3.DateEdited()
 						for _, reg := range []lint.Registry{g, nil} {
 							if rs3, pv3, _ := o3.Lint(reg); pv3 == nil && rs3 != nil {
 								c.R.Count("evaluations", 1)
